@@ -483,6 +483,16 @@ def main(plugin) -> int:
     # 1. tables from the current tree
     gen_tables()
 
+    # cross-model agreement modules (harness/agree.json: property -> extra Lean modules whose theorems
+    # say that this property's model of a function equals another property's model of the same function)
+    try:
+        _agree = json.load(open(os.path.join(ROOT, "harness", "agree.json")))
+        extra = [m for m in _agree.get(pid, []) if m not in plugin.PROPS]
+        if extra:
+            plugin.PROPS = list(plugin.PROPS) + extra
+    except (OSError, ValueError):
+        pass
+
     # 2. build: driver first (needed for the correspondence), proofs second
     ok_drv, log_drv = lake_build([plugin.DRIVER])
     if not ok_drv:
